@@ -112,14 +112,15 @@ def esrc(e, prec=0):
     raise Unencodable(k)
 
 
-def tsrc(t):
-    """source of an assignment target (no outer parentheses for tuples: `a, *b = ...`)"""
+def tsrc(t, top=True):
+    """source of an assignment target (no outer parentheses for a top-level tuple: `a, *b = ...`)"""
     if t[0] == "tuple" and t[1]:
-        return ", ".join(tsrc(x) if x[0] != "tuple" else "(" + tsrc(x) + ")" for x in t[1]) + ("," if len(t[1]) == 1 else "")
+        body = ", ".join(tsrc(x, False) for x in t[1]) + ("," if len(t[1]) == 1 else "")
+        return body if top else "(" + body + ")"
     if t[0] == "list":
-        return "[" + ", ".join(tsrc(x) for x in t[1]) + "]"
+        return "[" + ", ".join(tsrc(x, False) for x in t[1]) + "]"
     if t[0] == "star":
-        return "*" + tsrc(t[1])
+        return "*" + tsrc(t[1], False)
     return esrc(t)
 
 
@@ -420,6 +421,8 @@ def from_expr(n):
     if isinstance(n, ast.Call):
         if n.keywords:
             raise Unencodable("keywords")
+        if isinstance(n.func, ast.Name) and n.func.id in ("comptime", "py"):
+            return ("comptime", [from_expr(a) for a in n.args])
         return ("call", from_expr(n.func), [from_expr(a) for a in n.args])
     if isinstance(n, ast.Tuple):
         return ("tuple", [from_expr(a) for a in n.elts])
@@ -795,14 +798,11 @@ def from_src_stmt(s):
 
 
 def norm(t):
-    """normal form for comparing a generated term with the re-parsed source: `pass`-only bodies
-    for empty suites, comptime calls, lists vs tuples of python containers"""
+    """normal form for comparing a generated term with the re-parsed source"""
     if isinstance(t, tuple):
-        if t and t[0] == "call" and t[1] == ("vu_name", "comptime"):
-            return ("comptime", [norm(x) for x in t[2]])
         if t and t[0] == "otherstmt":
             return ("otherstmt",)
         return tuple(norm(x) for x in t)
     if isinstance(t, list):
-        return [norm(x) for x in t]
+        return tuple(norm(x) for x in t)
     return t
